@@ -51,8 +51,9 @@ theorem goodFirst_prf (t g p : Txt) (ht : lower t ∈ prfT) (hg : lower g ∈ pr
     have htext : gap ++ (t ++ g ++ p ++ rest) = gap ++ (t ++ (g ++ (p ++ rest))) := by simp [List.append_assoc]
     rw [htext]
     simp only [operandFirst, hprf, mapR_some, wordEnd_follow _ rest hf', orElseR_some_left]
-  · refine ⟨ct, wt ++ g ++ p, by simp [htc], alpha_not_ws ct hta, ?_, ?_⟩ <;>
-      (simp only [isAlphaC] at hta; simp at hta; omega)
+  · have h43 : ct ≠ 43 := by simp only [isAlphaC] at hta; simp at hta; omega
+    have h58 : ct ≠ 58 := by simp only [isAlphaC] at hta; simp at hta; omega
+    exact ⟨ct, wt ++ g ++ p, by simp [htc], alpha_not_ws ct hta, h43, fun e => absurd e h58⟩
 
 theorem covered_prf (last : Bool) (t g p : Txt) (ht : lower t ∈ prfT) (hg : lower g ∈ prfG) (hp : lower p ∈ prfP) :
     CoveredOp last true (.prf t g p) := by
